@@ -344,8 +344,21 @@ def _r4_cleanup(run):
         def norm(x):
             if isinstance(x, tuple):
                 if x and x[0] == "call" and x[1][0] == "attr" and x[1][2] == "tile_path":
+                    dflt = ("attr", x[1][1], "_default_format")
+                    def default_format(v):
+                        # format=None, format=self._default_format and format=(None or self._default_format) all name the default
+                        # format (tile_path itself falls back to it)
+                        while v[0] == "op" and v[1] == "or" and len(v[2]) == 2 and v[2][0] == sym.NONE:
+                            v = v[2][1]
+                        return v in (sym.NONE, dflt)
                     return ("call", x[1], tuple(("sym", "POS") if a == posterm else norm(a) for a in x[2]),
-                            tuple((k, norm(v)) for k, v in x[3] if k != "makedirs" and not (k == "format" and v == sym.NONE)))
+                            tuple((k, norm(v)) for k, v in x[3] if k != "makedirs" and not (k == "format" and default_format(v))))
+                if x == posterm:
+                    return ("sym", "POS")
+                if x and x[0] == "attr" and x[1] == posterm and posterm[0] == "nt" and x[2] in ("n", "x", "y"):
+                    return ("attr", ("sym", "POS"), x[2])
+                if x and x[0] == "op" and x[1] == "or" and len(x[2]) == 2 and x[2][0] == sym.NONE:
+                    return norm(x[2][1])                      # (None or X) is X
                 return tuple(norm(y) if isinstance(y, tuple) else y for y in x)
             return x
         return norm(t)
@@ -362,7 +375,13 @@ def _r4_cleanup(run):
     tc = template(pc, posc)
     rng = ("call", ("sym", "range"), (("op", "pow", (num(2), level)),), ())
     want_pos = ("nt", "Pos", (level, ("elem", rng), ("elem", rng)))
-    if tl != tc:
+    from . import common as _common
+    if tl != tc and (_common.unfollowed_project_calls(project, tl) or _common.unfollowed_project_calls(project, tc)) and not \
+            (show(tl).count("tile_path") and show(tc).count("tile_path") and not [u for u in _common.unfollowed_project_calls(project, tl) + _common.unfollowed_project_calls(project, tc)
+                                                                                 if show(u[1]).split(".")[-1] != "tile_path"]):
+        run.undecided("C09.R4", cl, unl[0].node, "clean_lockfiles removes %s, update_image locks %s: the paths go through helpers / records that are not followed" % (
+            show(tc)[:80], show(tl)[:80]), kind="cleanup-path-opaque")
+    elif tl != tc:
         run.violated("C09.R4", cl, unl[0].node, "clean_lockfiles removes %s but update_image locks %s: the lock files are not the ones cleaned" % (show(tc)[:100], show(tl)[:100]),
                      kind="cleanup-path-template")
     elif posc != want_pos:
